@@ -5,7 +5,20 @@
     three [fix:] commits recorded in known-findings.txt (discounted charge, complete rewrite of
     the owner tally, all-or-nothing deduction); on the unchanged code the first theorem below is
     false (corpus/C07/discount-overcharge.jsonl). *)
-From Irismod Require Import Service.Model Service.Proofs.
+From Irismod Require Import Service.Model Service.Proofs Service.ProofsHist.
+
+(** Over EVERY history (any list of steps: messages of any kind and content, valid or not, block
+    ends with expiry, slashing, refunds and new batches, rate changes, transfers, module
+    calls), for every parameter set, from any initial height, time and ledger in which the
+    deposit escrow is empty: the balance of the deposit escrow account equals the sum of the
+    deposits recorded on all bindings. *)
+Theorem deposit_escrow_eq_bindings :
+  forall c steps h0 t0 l0,
+    bal l0 DEP BASE = 0 ->
+    let s := run c (init h0 t0 l0) steps in
+    bal (led s) DEP BASE = dep_sum (binds s).
+Proof. exact deposit_escrow_eq_bindings_lemma. Qed.
+Print Assumptions deposit_escrow_eq_bindings.
 
 (** When the end blocker issues a batch for context [id] (running, enough providers pass the
     filter, the consumer can pay), then in EVERY denom the consumer's balance falls by exactly
